@@ -66,7 +66,102 @@ theorem C07_reachable_roundtrip {E : Impl.Env} (hidem : E.Idem) {db : Impl.Db}
     ((∀ l ∈ db, Impl.handled l.type 0 l.size = true) → Impl.readDb (Impl.encDb db) = some db) :=
   C07_built_wf_partial (hr.inv hidem) hb
 
+/-- **Built databases decode back** (possible since the F37 repair).  Every database built through
+    the library's own operations over the types the decoder handles — starting empty or from a decoded
+    duplicate-free stream; `Append` of an X.509, SHA-256 or externally-managed entry; `Remove`;
+    `AppendList` of a list of such a type that was itself built by `NewSignatureList` and at least one
+    successful `AppendBytes` — encodes to a well-formed stream (the specification codec reads exactly
+    its lists) and the implementation's decoder returns the database itself.
+
+    No hypothesis about the sizes of the entries, about the normalisation function, or about which
+    types are present in the result (all of that is proved: `Impl.BuiltOver.sized`, `.types`,
+    `.reachable`).  What remains assumed: every `ListSize` fits its 4-byte field (Go computes it in
+    `uint32`), owners are 16 bytes (always true of the Go struct), decoded starts are duplicate-free;
+    and a list that `NewSignatureList` made and nothing was appended to is not among the lists
+    `AppendList` may be given (known finding F20, counterexamples below).
+
+    Before the repair this was false: `[] —Append(EXTERNAL_MANAGEMENT, o, [1,2])→ db` succeeded and
+    `readDb (encDb db) = none`. -/
+theorem C07_built_roundtrip {E : Impl.Env} {db : Impl.Db}
+    (hb : Impl.BuiltOver E Impl.HandledType db) (h32 : ∀ l ∈ db, l.listSize < 2^32) :
+    Spec.decodeDb (Impl.encDb db) = some (db.map Impl.SList.toSpec) ∧
+    Impl.readDb (Impl.encDb db) = some db := by
+  have hinv := hb.reachable.inv_raw
+  have hw := Impl.Db.wire_of_sized hinv hb.sized hb.types h32
+  exact ⟨(C07_built_wf_partial hinv (fun l hl => ⟨h32 l hl, fun _ => (hw l hl).2.2.1⟩)).1,
+    Impl.readDb_enc db hw⟩
+
+/-- The special case asked for: from the empty database, any number of successful `Append`s of
+    handled types (any owners of 16 bytes, any data, PEM or not). -/
+inductive Appended (E : Impl.Env) : Impl.Db → Prop
+  | empty : Appended E []
+  | append {db db' : Impl.Db} {t o d : Bytes} : Appended E db → o.length = 16 →
+      (t = Impl.guidX509 ∨ t = Impl.guidSha256 ∨ t = Impl.guidExternal) →
+      db.append E t o d = .ok db' → Appended E db'
+
+theorem Appended.built {E : Impl.Env} {db : Impl.Db} (h : Appended E db) :
+    Impl.BuiltOver E Impl.HandledType db := by
+  induction h with
+  | empty => exact .empty
+  | append _ ho ht ha ih => exact .append ih ho ht ha
+
+theorem C07_appended_decodes {E : Impl.Env} {db : Impl.Db} (h : Appended E db)
+    (h32 : ∀ l ∈ db, l.listSize < 2^32) : Impl.readDb (Impl.encDb db) = some db :=
+  (C07_built_roundtrip h.built h32).2
+
+/-- For the types the decoder does NOT handle the first half still holds (the stream is well-formed
+    and denotes the database), for every type in `ValidEFISignatureSchemes` or outside it. -/
+theorem C07_built_wf {E : Impl.Env} {T : Bytes → Prop} {db : Impl.Db}
+    (hb : Impl.BuiltOver E T db) (h32 : ∀ l ∈ db, l.listSize < 2^32) :
+    Spec.decodeDb (Impl.encDb db) = some (db.map Impl.SList.toSpec) :=
+  (C07_built_wf_partial hb.reachable.inv_raw
+    (fun l hl => ⟨h32 l hl, (hb.sized l hl).2.2⟩)).1
+
+/-- the size rule is what the type-agnostic invariant of C09 lacks: an externally-managed list of
+    signature size 18 satisfies `Inv`, encodes to a well-formed stream, and is not decoded — this is
+    the database the unrepaired `Append` built (F37) -/
+example : ∃ db : Impl.Db, db.Inv ∧ (∀ l ∈ db, l.listSize < 2^32) ∧
+    (∀ l ∈ db, Impl.HandledType l.type) ∧
+    Spec.decodeDb (Impl.encDb db) = some (db.map Impl.SList.toSpec) ∧
+    Impl.readDb (Impl.encDb db) = none :=
+  ⟨[⟨Impl.guidExternal, 46, 0, 18, [], [⟨Ex.owner1, [1, 2]⟩]⟩],
+   by intro l hl
+      simp only [List.mem_singleton] at hl; subst hl
+      exact ⟨by decide, rfl, rfl, by decide, by decide, by decide, by decide⟩,
+   by decide,
+   by intro l hl
+      simp only [List.mem_singleton] at hl; subst hl
+      exact Or.inr (Or.inr rfl),
+   by decide +kernel, by decide +kernel⟩
+
+/-- known finding F20 (not repaired): `AppendList` of a list nothing was appended to.  Its signature
+    size is 0; the 28 bytes it encodes to are no well-formed list and are not decoded.  `ListBuilt`
+    (at least one successful `AppendBytes`) is exactly what excludes it. -/
+example : Spec.decodeDb (Impl.encDb (Impl.Db.appendList [] (Impl.newList Impl.guidSha256))) = none ∧
+    Impl.readDb (Impl.encDb (Impl.Db.appendList [] (Impl.newList Impl.guidSha256))) = none ∧
+    Spec.decodeDb (Impl.encDb (Impl.Db.appendList [] (Impl.newList Impl.guidX509))) = none := by
+  decide +kernel
+
 /-! ### non-vacuity: the two-list database `Ex.db` and its 144-byte wire form `Ex.bytes` -/
+
+section
+open GoUefi.Ex   -- the (scoped) `DecidableEq (Except _ _)` used by `decide` below
+/-- `C07_built_roundtrip` / `C07_appended_decodes`: a database of all three handled types built by
+    four `Append`s from the empty one -/
+example : ∃ db : Impl.Db, Appended Ex.env db ∧ db.length = 3 ∧ (∀ l ∈ db, l.listSize < 2^32) := by
+  let e1 : Impl.SList := ⟨Impl.guidExternal, 45, 0, 17, [], [⟨Ex.owner1, [1]⟩]⟩
+  let e2 : Impl.SList := ⟨Impl.guidExternal, 62, 0, 17, [], [⟨Ex.owner1, [1]⟩, ⟨Ex.owner2, [1]⟩]⟩
+  let x : Impl.SList := ⟨Impl.guidX509, 48, 0, 20, [], [⟨Ex.owner1, [1, 2, 3, 4]⟩]⟩
+  refine ⟨[e2, Ex.shaList, x], ?_, rfl, by decide⟩
+  exact .append (db := [e2, Ex.shaList]) (t := Impl.guidX509) (o := Ex.owner1) (d := [1, 2, 3, 4])
+    (.append (db := [e2]) (t := Impl.guidSha256) (o := Ex.owner1) (d := List.replicate 32 0xAA)
+      (.append (db := [e1]) (t := Impl.guidExternal) (o := Ex.owner2) (d := [1])
+        (.append (db := []) (t := Impl.guidExternal) (o := Ex.owner1) (d := [1]) .empty
+          (by decide) (Or.inr (Or.inr rfl)) (by decide +kernel))
+        (by decide) (Or.inr (Or.inr rfl)) (by decide +kernel))
+      (by decide) (Or.inr (Or.inl rfl)) (by decide +kernel))
+    (by decide) (Or.inl rfl) (by decide +kernel)
+end
 
 /-- hypotheses of `C07_decode_exact` -/
 example : Spec.decodeDb Ex.bytes = some (Ex.db.map Impl.SList.toSpec) ∧
@@ -84,3 +179,6 @@ end GoUefi.C07
 #print axioms GoUefi.C07.C07_decode_exact
 #print axioms GoUefi.C07.C07_built_wf_partial
 #print axioms GoUefi.C07.C07_reachable_roundtrip
+#print axioms GoUefi.C07.C07_built_roundtrip
+#print axioms GoUefi.C07.C07_appended_decodes
+#print axioms GoUefi.C07.C07_built_wf
